@@ -245,7 +245,7 @@ where
                     .await
                     .map_err(ManagerError::IdentityManager)?;
 
-                (None, None, vec![event])
+                (None, None, event.into_iter().collect())
             }
             SpacesArgs::Auth { group_action, .. } => {
                 // Promoting and demoting members is not supported yet, neither by the group events
